@@ -339,11 +339,28 @@ func runTypedScenario(w *ndWriter, p typedPkg, seed int64) {
 		}).Create()
 	umon, _ := kcache.NewMonitor(uc, uh)
 
+	// a clone of each controller with a subscriber: closed half-way, which must not touch the original
+	var ctev, cuev []evRec
+	var tclone reflect.Value
+	var uclone kcache.Controller
+	if r := call(tc, "Clone"); errOf(r[1]) == nil {
+		tclone = r[0]
+		if sr := call(tclone, "Subscribe"); errOf(sr[1]) == nil {
+			go hw_typedsub(sr[0], &mu, &ctev)
+		}
+	}
+	if c, err := uc.Clone(); err == nil {
+		uclone = c
+		if sub, err := c.Subscribe(); err == nil {
+			go hw_untypedsub(sub, &mu, &cuev)
+		}
+	}
 	tready := chanOf(call(tc, "Ready")[0])
 	emit := func(tag string) {
 		quiet := quiesce(theTracer, 3*time.Second)
 		mu.Lock()
 		te, ue, me, ume := evsJSONT(tev), evsJSONT(uev), evsJSONT(mev), evsJSONT(umev)
+		cte, cue := evsJSONT(ctev), evsJSONT(cuev)
 		sig := "events[" + sigOf(tev, keys) + "] monitor[" + sigOf(mev, keys) + "]"
 		mu.Unlock()
 		// cache listings
@@ -375,9 +392,9 @@ func runTypedScenario(w *ndWriter, p typedPkg, seed int64) {
 		for k := range foreign {
 			fk = append(fk, k)
 		}
-		w.write2(fmt.Sprintf(`{"k":"typed.snap","pkg":%q,"tag":%q,"seed":%d,"quiet":%v,"tev":%s,"uev":%s,"tlist":%s,"ulist":%s,"tlisterr":%v,"ulisterr":%v,"foreign":%s,"foreign_get":%q,"tready":%v,"uready":%v,"tdone":%v,"udone":%v,"tmon":%s,"umon":%s,"sig":%q}`,
+		w.write2(fmt.Sprintf(`{"k":"typed.snap","pkg":%q,"tag":%q,"seed":%d,"quiet":%v,"tev":%s,"uev":%s,"tlist":%s,"ulist":%s,"tlisterr":%v,"ulisterr":%v,"foreign":%s,"foreign_get":%q,"tready":%v,"uready":%v,"tdone":%v,"udone":%v,"tmon":%s,"umon":%s,"sig":%q,"ctev":%s,"cuev":%s}`,
 			p.name, tag, seed, quiet, te, ue, jsStrs(tl), jsStrs(ul), tlerr, ulerr != nil, jsStrs(fk), fg, isClosed(tready), isClosed(uc.Ready()),
-			isClosed(chanOf(call(tc, "Done")[0])), isClosed(uc.Done()), me, ume, sig))
+			isClosed(chanOf(call(tc, "Done")[0])), isClosed(uc.Done()), me, ume, sig, cte, cue))
 	}
 	if gated {
 		emit("gated")
@@ -399,6 +416,17 @@ func runTypedScenario(w *ndWriter, p typedPkg, seed int64) {
 	}
 	n := 10 + rng.Intn(20)
 	for i := 0; i < n; i++ {
+		if i == n/2 {
+			// both clones have seen the same prefix of the stream (quiescence first), then they are closed
+			quiesce(theTracer, 3*time.Second)
+			if tclone.IsValid() {
+				call(tclone, "Close")
+			}
+			if uclone != nil {
+				uclone.Close()
+			}
+			quiesce(theTracer, 3*time.Second)
+		}
 		mutate()
 		if rng.Intn(3) == 0 {
 			time.Sleep(time.Duration(rng.Intn(200)) * time.Microsecond)
@@ -646,6 +674,22 @@ func runTypedRequests(w *ndWriter, p typedPkg) {
 			sort.Strings(q)
 			w.write2(fmt.Sprintf(`{"k":"typed.req","pkg":%q,"ns":%q,"op":%q,"method":%q,"path":%q,"query":[%s],"listerr":%v,"watcherr":%v,"listn":%d,"items":%d}`,
 				p.name, ns, op, r.Method, r.URL.Path, strings.Join(q, ","), lerr != nil, werr != nil, listn, rt.items))
+		}
+		// a second clientset (another cluster) asked for the same resource and namespace gets a client of its own
+		rt2 := &recTransport{items: rt.items + 2}
+		if cs2, err2 := kubernetes.NewForConfig(&rest.Config{Host: "http://other.invalid", Transport: rt2}); err2 == nil {
+			cl2 := p.newClient(cs2, ns)
+			ctx2, cancel2 := context.WithTimeout(context.Background(), 2*time.Second)
+			l2, lerr2 := cl2.List(ctx2, metav1.ListOptions{})
+			cancel2()
+			n2 := -1
+			if lerr2 == nil && l2 != nil {
+				n2 = meta.LenList(l2)
+			}
+			rt2.mu.Lock()
+			hits := len(rt2.reqs)
+			rt2.mu.Unlock()
+			w.write2(fmt.Sprintf(`{"k":"typed.req2","pkg":%q,"ns":%q,"hits":%d,"listn":%d,"items":%d}`, p.name, ns, hits, n2, rt2.items))
 		}
 		if nlist < 1 || nwatch != 2 {
 			w.write2(fmt.Sprintf(`{"k":"typed.reqcount","pkg":%q,"ns":%q,"n":%d}`, p.name, ns, len(rt.reqs)))
